@@ -95,7 +95,8 @@ CloseAll(w) == IF w.open = <<>> THEN Res("ok", w)
 (* --------------------------- public calls --------------------------- *)
 WriteCall(sch, w, op) ==
   IF op.k \in {"flush", "into_inner"} THEN
-    LET c == CloseAll(w) IN IF c.res # "ok" THEN c ELSE Res("ok", [c.w EXCEPT !.dest = @ \o c.w.wbuf, !.wbuf = <<>>])
+    \* all or nothing: a master whose size does not fit its width makes the call fail before anything is ended (C19)
+    LET c == CloseAll(w) IN IF c.res # "ok" THEN Res(c.res, w) ELSE Res("ok", [c.w EXCEPT !.dest = @ \o c.w.wbuf, !.wbuf = <<>>])
   ELSE IF op.k = "write_raw" THEN           \* no validation at all (outside every listed property)
     LET sf == SizeField(Len(op.val), 0) IN Res("ok", MaybeFlush([w EXCEPT !.wbuf = @ \o WStrip(op.id) \o sf.bytes \o op.val]))
   ELSE IF op.k = "start_unknown_dep" THEN   \* deprecated call = option-based unknown-size start (C09)
